@@ -21,11 +21,11 @@ type solverRun struct {
 	secs    float64
 }
 
-func runSolver(name string, args []string, file string, timeout time.Duration) solverRun {
-	ctx, cancel := context.WithTimeout(context.Background(), timeout+2*time.Second)
+func runSolverCtx(ctx context.Context, name string, args []string, file string, timeout time.Duration) solverRun {
+	ctx2, cancel := context.WithTimeout(ctx, timeout+2*time.Second)
 	defer cancel()
 	t0 := time.Now()
-	cmd := exec.CommandContext(ctx, name, append(args, file)...)
+	cmd := exec.CommandContext(ctx2, name, append(args, file)...)
 	var out bytes.Buffer
 	cmd.Stdout = &out
 	cmd.Stderr = &out
@@ -33,14 +33,15 @@ func runSolver(name string, args []string, file string, timeout time.Duration) s
 	secs := time.Since(t0).Seconds()
 	o := out.String()
 	first := strings.TrimSpace(strings.SplitN(o, "\n", 2)[0])
-	r := solverRun{solver: name, out: o, secs: secs}
+	r := solverRun{solver: name + " " + strings.Join(args, " "), out: o, secs: secs}
+	r.solver = strings.TrimSpace(r.solver)
 	switch first {
 	case "unsat", "sat", "unknown":
 		r.verdict = first
 	case "timeout":
 		r.verdict = "timeout"
 	default:
-		if ctx.Err() != nil {
+		if ctx2.Err() != nil {
 			r.verdict = "timeout"
 		} else if err != nil || first != "" {
 			r.verdict = "error"
@@ -51,6 +52,10 @@ func runSolver(name string, args []string, file string, timeout time.Duration) s
 	return r
 }
 
+func runSolver(name string, args []string, file string, timeout time.Duration) solverRun {
+	return runSolverCtx(context.Background(), name, args, file, timeout)
+}
+
 type solveOpts struct {
 	dir      string
 	timeout  time.Duration
@@ -58,6 +63,9 @@ type solveOpts struct {
 	all      bool // run all solvers and report disagreement (thorough)
 }
 
+// solveObligation: z3 5.x first (short budget); if it does not decide, a portfolio runs in parallel —
+// z3 5.x under different random seeds (quantifier instantiation is seed-sensitive), cvc5 and z3 4.8 —
+// and the first definite answer wins.
 func solveObligation(c *Ctx, o *Obligation, idx int, opts solveOpts) {
 	to := opts.timeout
 	if o.Canary {
@@ -78,46 +86,48 @@ func solveObligation(c *Ctx, o *Obligation, idx int, opts solveOpts) {
 	if s1 < 1 {
 		s1 = 1
 	}
+	t0 := time.Now()
 	r := runSolver("z3-new", []string{fmt.Sprintf("-T:%d", s1)}, z3file, stage1)
-	total := r.secs
 	final := r
 	if r.verdict != "unsat" && r.verdict != "sat" && !o.Canary {
-		// portfolio
 		cvcfile := base + ".cvc5.smt2"
 		os.WriteFile(cvcfile, []byte("(set-option :produce-models true)\n"+c.script(o, int(to.Milliseconds()), "ALL")), 0o644)
-		var wg sync.WaitGroup
-		var r2, r3, r4 solverRun
-		wg.Add(3)
-		go func() {
-			defer wg.Done()
-			r4 = runSolver("z3-new", []string{fmt.Sprintf("-T:%d", secs)}, z3file, to)
-		}()
-		go func() {
-			defer wg.Done()
-			r2 = runSolver("cvc5", []string{fmt.Sprintf("--tlimit=%d", to.Milliseconds()), "--lang=smt2"}, cvcfile, to)
-		}()
-		go func() {
-			defer wg.Done()
-			r3 = runSolver("z3", []string{fmt.Sprintf("-T:%d", secs)}, z3file, to)
-		}()
-		wg.Wait()
-		total += r2.secs
-		if r3.secs > r2.secs {
-			total += r3.secs - r2.secs
+		type cfg struct {
+			name string
+			args []string
+			file string
 		}
-		if r4.secs > r2.secs && r4.secs > r3.secs {
-			total += r4.secs - max(r2.secs, r3.secs)
+		cfgs := []cfg{
+			{"z3-new", []string{fmt.Sprintf("-T:%d", secs), "smt.random_seed=7"}, z3file},
+			{"z3-new", []string{fmt.Sprintf("-T:%d", secs), "smt.random_seed=13"}, z3file},
+			{"z3-new", []string{fmt.Sprintf("-T:%d", secs), "smt.random_seed=42", "smt.qi.eager_threshold=50"}, z3file},
+			{"cvc5", []string{fmt.Sprintf("--tlimit=%d", to.Milliseconds()), "--lang=smt2"}, cvcfile},
+			{"z3", []string{fmt.Sprintf("-T:%d", secs)}, z3file},
 		}
-		for _, rr := range []solverRun{r4, r2, r3} {
+		ctx, cancel := context.WithCancel(context.Background())
+		results := make(chan solverRun, len(cfgs))
+		for _, cf := range cfgs {
+			cf := cf
+			go func() { results <- runSolverCtx(ctx, cf.name, cf.args, cf.file, to) }()
+		}
+		for range cfgs {
+			rr := <-results
 			if rr.verdict == "unsat" || rr.verdict == "sat" {
 				final = rr
 				break
 			}
+			if rr.verdict == "error" && final.verdict != "error" && !strings.Contains(rr.out, "model is not available") {
+				// keep the first real error for reporting, but let the others finish
+				if strings.HasPrefix(rr.solver, "z3-new") {
+					final = rr
+				}
+			}
 		}
+		cancel()
 		os.Remove(cvcfile)
 	}
 	o.Solver = final.solver
-	o.Time = total
+	o.Time = time.Since(t0).Seconds()
 	o.Output = truncate(final.out, 4000)
 	switch final.verdict {
 	case "unsat":
@@ -125,8 +135,13 @@ func solveObligation(c *Ctx, o *Obligation, idx int, opts solveOpts) {
 	case "sat":
 		o.Status = "refuted"
 		o.Model = parseModel(final.out, o)
+	case "error":
+		o.Status = "error"
 	default:
 		o.Status = "unknown"
+	}
+	if strings.Contains(final.out, "(error ") && final.verdict != "unsat" && !strings.Contains(final.out, "model is not available") {
+		o.Status = "error"
 	}
 	if os.Getenv("GOVC_KEEP") == "" {
 		os.Remove(z3file)
